@@ -111,3 +111,9 @@ def cleanup() -> None:
     if _TMP is not None:
         shutil.rmtree(_TMP, ignore_errors=True)
         _TMP = None
+
+
+def fresh(s):
+    """An equal but distinct str object (as read from a config file or the command line, not a source literal):
+    option values are compared by value."""
+    return "".join(list(s)) if isinstance(s, str) and len(s) > 1 else s
